@@ -75,7 +75,10 @@ def delete_discipline(ctx, rule):
             r = V.cfg.reachable(tsucc[0], removed_nodes=[y.id for y in yn])
             ok = not (r & {d.id for d in dels})
         for d in dels:
-            ok = ok and src(d.ast.targets[0]) == "raw[:index]"
+            # what is deleted is the line and its terminator: raw[:index] after `index += len(eol)`, or raw[:index + len(eol)]
+            tgt = src(d.ast.targets[0]).replace(" ", "")
+            bumped = [n for n in V.cfg.nodes if isinstance(n.ast, ast.AugAssign) and dotted(n.ast.target) == "index" and V.dominated([d], [n])]
+            ok = ok and ((tgt == "raw[:index]" and bool(bumped)) or tgt in ("raw[:index+len(eol)]", "raw[:len(eol)+index]"))
         ctx.check(ok, rule, f, "%s: del raw[:index] only after an end of line was found; `yield None` leaves the buffer untouched" % fname,
                   "an incomplete line must stay in the buffer until the rest arrives, otherwise a message split at that point parses "
                   "differently from the whole message")
@@ -207,18 +210,17 @@ def wait_before_read(ctx, rule):
                     k = src(sl)
                 buf = src(x.value)
                 sites += 1
-                ok = False
-                for t in V.cfg.nodes:
-                    if t.kind != "test":
-                        continue
-                    ts = src(t.ast.test) if hasattr(t.ast, "test") else ""
-                    if ts == "len(%s) < %s" % (buf, k) and V.dominated_by_edge([nd], t, "F"):
-                        ok = True
-                    elif ts == "len(%s) >= %s" % (buf, k) and V.dominated_by_edge([nd], t, "T"):
-                        ok = True
-                    elif ts == "%s < 0" % k and V.dominated_by_edge([nd], t, "F"):
-                        # K is a delimiter position found in the buffer
-                        ok = any(isinstance(a.ast, ast.Assign) and dotted(a.ast.targets[0]) == k for a in V.cfg.nodes)
+                fs = V.facts(nd)
+                ok = ("len(%s) >= %s" % (buf, k)) in fs
+                if not ok and ("%s >= 0" % k) in fs:
+                    # K is a delimiter position found in the buffer
+                    ok = any(isinstance(a.ast, ast.Assign) and dotted(a.ast.targets[0]) == k for a in V.cfg.nodes)
+                if not ok:
+                    up = sl.upper if isinstance(sl, ast.Slice) else sl
+                    if isinstance(up, ast.BinOp) and isinstance(up.op, ast.Add) and isinstance(up.left, ast.Name) and \
+                            isinstance(up.right, ast.Call) and call_name(up.right) == "len":
+                        # delimiter position + delimiter length: the delimiter was found in the buffer at that position
+                        ok = ("%s >= 0" % up.left.id) in fs
                 ctx.check(ok, rule, x, "%s: %s read only after the buffer is known to hold %s bytes" % (fname, src(x), k),
                           "a short buffer silently yields a short slice: when the receive boundary falls inside these bytes the parser acts on a "
                           "partial unit instead of yielding None for more")
